@@ -61,11 +61,14 @@ type history struct {
 	obs   []string
 	nontr bool
 	fails []string
+	// detail: Go-level rendering of the arguments that the Coq event abstracts from (time.Time representation of an
+	// instant, the non-compared tag of a priority); part of the replay description of the history
+	detail []string
 }
 
 func (h *history) add(ev, ob string) { h.evs = append(h.evs, ev); h.obs = append(h.obs, ob) }
 func (h *history) fail(f string, a ...any) {
-	h.fails = append(h.fails, fmt.Sprintf("op %d (%s): ", len(h.evs), last(h.evs))+fmt.Sprintf(f, a...))
+	h.fails = append(h.fails, fmt.Sprintf("operation %d (the one after %q): ", len(h.evs)+1, last(h.evs))+fmt.Sprintf(f, a...))
 }
 
 // guard turns a panic of the implementation into a reported failure of the history run so far.
@@ -545,6 +548,9 @@ func runRMap(r *vx.Rng, o smOpts, n int, st *vx.Stats) (ret *history) {
 type prio struct {
 	p    int64
 	mode int // 0 ascending, 1 descending, 2 ascending on p/2 (distinct priorities that tie)
+	// tag takes no part in the comparison: two priorities with equal p and different tags are equal for the
+	// comparator but not identical as Go values (== is false)
+	tag int
 }
 
 func cmp64(a, b int64) int {
@@ -570,15 +576,17 @@ func (a prio) CompareTo(b prio) int {
 }
 
 type pqIface interface {
-	push(v int64, p int64) int // returns handle number or -1
+	push(v int64, p int64, repr int) int // returns handle number or -1
 	remove(id int)
 	Peek() (int64, bool)
 	Pop() (int64, bool)
-	popUntil(p int64) []int64
+	popUntil(p int64, repr int) []int64
 	PopAll() []int64
 	Size() int
 	IsEmpty() bool
 	heap() reflect.Value
+	nrepr() int
+	reprName(repr int) string
 }
 
 type dsPQ struct {
@@ -587,32 +595,84 @@ type dsPQ struct {
 	handles []func()
 }
 
-func (q *dsPQ) push(v, p int64) int {
-	q.handles = append(q.handles, q.PriorityQueue.Push(v, prio{p, q.mode}))
+func (q *dsPQ) push(v, p int64, repr int) int {
+	q.handles = append(q.handles, q.PriorityQueue.Push(v, prio{p, q.mode, repr}))
 	return len(q.handles) - 1
 }
-func (q *dsPQ) remove(id int)             { q.handles[id]() }
-func (q *dsPQ) popUntil(p int64) []int64  { return q.PriorityQueue.PopUntil(prio{p, q.mode}) }
-func (q *dsPQ) heap() reflect.Value       { return fld(reflect.ValueOf(q.PriorityQueue), "heap") }
+func (q *dsPQ) remove(id int) { q.handles[id]() }
+func (q *dsPQ) popUntil(p int64, repr int) []int64 {
+	return q.PriorityQueue.PopUntil(prio{p, q.mode, repr})
+}
+func (q *dsPQ) heap() reflect.Value      { return fld(reflect.ValueOf(q.PriorityQueue), "heap") }
+func (q *dsPQ) nrepr() int               { return 3 }
+func (q *dsPQ) reprName(repr int) string { return fmt.Sprintf("tag=%d", repr) }
 
+// timedPQ: the abstract priority p denotes the instant base + p*unit. Every key and every PopUntil bound is rendered
+// in one of several time.Time representations of that instant (the comparators must order INSTANTS, i.e. behave like
+// Before/After/Equal, whatever the wall/monotonic encoding and the *Location of the two values).
 type timedPQ struct {
 	timed.PriorityQueue[int64]
+	base time.Time // time.Now(): carries a monotonic clock reading, local zone
+	unit time.Duration
 }
 
-var epoch = time.Unix(1_700_000_000, 0)
+var (
+	zoneA = time.FixedZone("A+1", 3600)
+	zoneB = time.FixedZone("B+1", 3600) // same offset, distinct *Location
+	zoneC = time.FixedZone("C-9:30", -(9*3600 + 1800))
+)
 
-func (q *timedPQ) push(v, p int64) int {
-	q.PriorityQueue.Push(v, epoch.Add(time.Duration(p)*time.Second))
+// Only a value derived from time.Now() by Add carries a monotonic reading (UTC/In/Local/Round(0)/Truncate strip it);
+// time.Time{wall, ext, loc} of the renderings differ in the wall/ext encoding and/or in the *Location.
+var timeReprNames = []string{
+	"base.Add(d): wall+monotonic reading, Local",
+	"Round(0): monotonic reading stripped, Local",
+	"UTC(): wall only, nil *Location",
+	"In(FixedZone A +1h)",
+	"In(FixedZone B +1h): same offset as A, other *Location",
+	"time.Unix(0, UnixNano()): rebuilt from Unix nanoseconds, Local",
+	"time.Unix(sec, nsec).In(FixedZone C -9:30)",
+}
+
+var timeUnits = []time.Duration{time.Nanosecond, time.Microsecond, 999 * time.Millisecond, time.Second, time.Hour, 366 * 24 * time.Hour}
+
+func (q *timedPQ) instant(p int64, repr int) time.Time {
+	ref := q.base.Add(time.Duration(p) * q.unit)
+	t := ref
+	switch repr {
+	case 1:
+		t = ref.Round(0)
+	case 2:
+		t = ref.UTC()
+	case 3:
+		t = ref.In(zoneA)
+	case 4:
+		t = ref.In(zoneB)
+	case 5:
+		t = time.Unix(0, ref.UnixNano())
+	case 6:
+		t = time.Unix(ref.Unix(), int64(ref.Nanosecond())).In(zoneC)
+	}
+	if !t.Equal(ref) || t.UnixNano() != ref.UnixNano() {
+		vx.Die("harness bug: representation %d of %v is another instant: %v", repr, ref, t)
+	}
+	return t
+}
+
+func (q *timedPQ) push(v, p int64, repr int) int {
+	q.PriorityQueue.Push(v, q.instant(p, repr))
 	return -1
 }
 func (q *timedPQ) remove(int) {}
-func (q *timedPQ) popUntil(p int64) []int64 {
-	return q.PriorityQueue.PopUntil(epoch.Add(time.Duration(p) * time.Second))
+func (q *timedPQ) popUntil(p int64, repr int) []int64 {
+	return q.PriorityQueue.PopUntil(q.instant(p, repr))
 }
 func (q *timedPQ) heap() reflect.Value {
 	inner := deref(reflect.ValueOf(q.PriorityQueue)).Field(0) // embedded *priorityqueue.PriorityQueue
 	return fld(inner, "heap")
 }
+func (q *timedPQ) nrepr() int               { return len(timeReprNames) }
+func (q *timedPQ) reprName(repr int) string { return timeReprNames[repr] }
 
 func heapSlice(hv reflect.Value) string {
 	items := make([]string, hv.Len())
@@ -624,23 +684,77 @@ func heapSlice(hv reflect.Value) string {
 }
 
 type refElem struct {
-	id int64
-	p  int64
+	id   int64
+	p    int64
+	repr int
+}
+
+// heapOp is one step of a heap history; P is the abstract priority, Repr selects the Go rendering of the key / bound
+// (time.Time representation for the timed queue, the non-compared tag for the ds queue).
+type heapOp struct {
+	K    string `json:"k"` // push remove peek pop popuntil popall size isempty
+	P    int64  `json:"p,omitempty"`
+	Repr int    `json:"repr,omitempty"`
+	ID   int    `json:"id,omitempty"`
+}
+
+func randomHeapOp(r *vx.Rng, useTimed bool, live int, pushes int64, nrepr int) heapOp {
+	switch c := r.Intn(100); {
+	case c < 40 || live == 0 && c < 60:
+		return heapOp{K: "push", P: int64(r.Intn(6)), Repr: r.Intn(nrepr)}
+	case c < 58 && !useTimed && pushes > 0:
+		return heapOp{K: "remove", ID: r.Intn(int(pushes))}
+	case c < 64:
+		return heapOp{K: "peek"}
+	case c < 80:
+		return heapOp{K: "pop"}
+	case c < 88:
+		return heapOp{K: "popuntil", P: int64(r.Intn(7)) - 1, Repr: r.Intn(nrepr)}
+	case c < 92:
+		return heapOp{K: "popall"}
+	case c < 96:
+		return heapOp{K: "size"}
+	}
+	return heapOp{K: "isempty"}
+}
+
+// heapDirected: for every ordered pair of renderings (ra, rb), keys pushed in ra and a PopUntil bound that is exactly
+// equal to a key but rendered in rb; also two equal keys in different renderings. One short history per pair.
+func heapDirected(nrepr int) [][]heapOp {
+	var res [][]heapOp
+	for ra := 0; ra < nrepr; ra++ {
+		for d := 1; d < nrepr; d++ {
+			rb := (ra + d) % nrepr
+			res = append(res, []heapOp{{K: "push", P: 1, Repr: ra}, {K: "push", P: 2, Repr: ra}, {K: "push", P: 2, Repr: rb},
+				{K: "push", P: 3, Repr: ra}, {K: "popuntil", P: 2, Repr: rb}, {K: "popall"}})
+		}
+	}
+	return res
 }
 
 // runHeap: values are the push numbers (= the model's ids), so every output identifies one element.
-func runHeap(r *vx.Rng, mode int, useTimed bool, n int, st *vx.Stats) (ret *history) {
+// script == nil: n random operations.
+func runHeap(r *vx.Rng, mode int, useTimed bool, n int, script []heapOp, st *vx.Stats) (ret *history) {
 	h := &history{kind: "heap", conf: []string{"CmpAsc", "CmpDesc", "CmpHalf"}[mode]}
 	ret = h
 	defer h.guard()
 	var q pqIface
+	variant := "ds"
 	if useTimed {
-		q = &timedPQ{timed.NewPriorityQueue[int64](mode == 0)}
+		tq := &timedPQ{PriorityQueue: timed.NewPriorityQueue[int64](mode == 0), base: time.Now(), unit: vx.Pick(r, timeUnits)}
+		q = tq
+		variant = fmt.Sprintf("timed.PriorityQueue ascending=%v; priority p = instant time.Now()+p*%v", mode == 0, tq.unit)
+		st.Count("heap:timed-unit=" + tq.unit.String())
 	} else {
 		q = &dsPQ{PriorityQueue: priorityqueue.New[int64, prio](), mode: mode}
+		variant = "ds/priorityqueue with comparator " + h.conf + "; keys carry a tag the comparator ignores"
+	}
+	h.detail = append(h.detail, variant)
+	if script != nil {
+		n = len(script)
 	}
 	var ref []refElem // live elements
-	c3 := func(a, b int64) int { return prio{a, mode}.CompareTo(prio{b, mode}) }
+	c3 := func(a, b int64) int { return prio{p: a, mode: mode}.CompareTo(prio{p: b, mode: mode}) }
 	isMin := func(id int64) bool {
 		var p int64
 		found := false
@@ -667,27 +781,44 @@ func runHeap(r *vx.Rng, mode int, useTimed bool, n int, st *vx.Stats) (ret *hist
 			}
 		}
 	}
-	prioOf := func(id int64) int64 {
-		for _, e := range ref {
-			if e.id == id {
-				return e.p
+	elemOf := func(id int64) *refElem {
+		for i := range ref {
+			if ref[i].id == id {
+				return &ref[i]
 			}
+		}
+		return nil
+	}
+	prioOf := func(id int64) int64 {
+		if e := elemOf(id); e != nil {
+			return e.p
 		}
 		return -999
 	}
 	pushes := int64(0)
-	removedLive, bigPop := false, false
+	removedLive, bigPop, crossTie, crossBound := false, false, false, false
 	for i := 0; i < n; i++ {
-		var ev, out string
-		switch c := r.Intn(100); {
-		case c < 40 || len(ref) == 0 && c < 60:
-			p := int64(r.Intn(6))
-			q.push(pushes, p)
-			ref = append(ref, refElem{pushes, p})
-			ev, out = fmt.Sprintf("HPush %s %s", vx.Z(p), vx.Z(pushes)), "HOUnit"
+		var o heapOp
+		if script != nil {
+			o = script[i]
+		} else {
+			o = randomHeapOp(r, useTimed, len(ref), pushes, q.nrepr())
+		}
+		var ev, out, det string
+		switch o.K {
+		case "push":
+			for _, e := range ref {
+				if c3(e.p, o.P) == 0 && e.repr != o.Repr {
+					crossTie = true // a live key that compares equal but is not the identical Go value
+				}
+			}
+			q.push(pushes, o.P, o.Repr)
+			ref = append(ref, refElem{pushes, o.P, o.Repr})
+			ev, out = fmt.Sprintf("HPush %s %s", vx.Z(o.P), vx.Z(pushes)), "HOUnit"
+			det = "key as " + q.reprName(o.Repr)
 			pushes++
-		case c < 58 && !useTimed && pushes > 0:
-			id := int64(r.Intn(int(pushes)))
+		case "remove":
+			id := int64(o.ID)
 			live := prioOf(id) != -999
 			before := q.Size()
 			q.remove(int(id))
@@ -701,13 +832,13 @@ func runHeap(r *vx.Rng, mode int, useTimed bool, n int, st *vx.Stats) (ret *hist
 			} else if q.Size() != before {
 				h.fail("remove handle of removed element %d changed the size from %d to %d", id, before, q.Size())
 			}
-		case c < 64:
+		case "peek":
 			got, ok := q.Peek()
 			ev, out = "HPeek", "HOVal "+optZ(got, ok)
 			if ok != (len(ref) > 0) || (ok && !isMin(got)) {
 				h.fail("Peek = %v,%v is not a minimum of %v", got, ok, ref)
 			}
-		case c < 80:
+		case "pop":
 			got, ok := q.Pop()
 			ev, out = "HPop", "HOVal "+optZ(got, ok)
 			if ok != (len(ref) > 0) || (ok && !isMin(got)) {
@@ -717,22 +848,28 @@ func runHeap(r *vx.Rng, mode int, useTimed bool, n int, st *vx.Stats) (ret *hist
 				bigPop = true
 			}
 			drop(got)
-		case c < 88:
-			p := int64(r.Intn(7)) - 1
-			got := q.popUntil(p)
+		case "popuntil":
+			p := o.P
+			for _, e := range ref {
+				if c3(e.p, p) == 0 && e.repr != o.Repr {
+					crossBound = true // the bound is exactly equal to a live key, in another rendering
+				}
+			}
+			got := q.popUntil(p, o.Repr)
 			ev, out = "HPopUntil "+paren(vx.Z(p)), "HOVals "+zs(got)
+			det = "bound as " + q.reprName(o.Repr)
 			for j, g := range got {
 				if !isMin(g) || c3(prioOf(g), p) > 0 {
-					h.fail("PopUntil(%d) = %v: element %d (#%d) out of order or above the limit; live %v", p, got, g, j, ref)
+					h.fail("PopUntil(%d as %s) = %v: element %d (#%d) out of order or above the limit; live {id p repr} %v", p, q.reprName(o.Repr), got, g, j, ref)
 				}
 				drop(g)
 			}
 			for _, e := range ref {
 				if c3(e.p, p) <= 0 {
-					h.fail("PopUntil(%d) = %v left %v behind", p, got, e)
+					h.fail("PopUntil(%d as %s) = %v left element %d (priority %d, key as %s) behind", p, q.reprName(o.Repr), got, e.id, e.p, q.reprName(e.repr))
 				}
 			}
-		case c < 92:
+		case "popall":
 			got := q.PopAll()
 			ev, out = "HPopAll", "HOVals "+zs(got)
 			if len(got) != len(ref) {
@@ -744,7 +881,7 @@ func runHeap(r *vx.Rng, mode int, useTimed bool, n int, st *vx.Stats) (ret *hist
 				}
 				drop(g)
 			}
-		case c < 96:
+		case "size":
 			sz := q.Size()
 			ev, out = "HSize", "HONat "+vx.Nat(sz)
 			if sz != len(ref) {
@@ -754,9 +891,18 @@ func runHeap(r *vx.Rng, mode int, useTimed bool, n int, st *vx.Stats) (ret *hist
 			ev, out = "HIsEmpty", "HOBool "+vx.Bool(q.IsEmpty())
 		}
 		h.add(ev, fmt.Sprintf("(%s, %s)", out, heapSlice(q.heap())))
+		if det != "" {
+			h.detail = append(h.detail, fmt.Sprintf("op %d %s: %s", len(h.evs), ev, det))
+		}
 		if q.Size() != len(ref) {
 			h.fail("size %d, reference has %d", q.Size(), len(ref))
 		}
+	}
+	if crossTie {
+		st.Count("heap:equal-keys-in-different-renderings")
+	}
+	if crossBound {
+		st.Count("heap:bound-equal-to-key-in-another-rendering")
 	}
 	h.nontr = bigPop && (useTimed || removedLive)
 	return h
@@ -1020,6 +1166,9 @@ func emit(cf *vx.CasesFile, st *vx.Stats, h *history, seed uint64, idx int) {
 	}
 	st.Case(h.kind+" "+h.conf+" "+strings.Join(h.evs, ";"), h.nontr)
 	desc := map[string]any{"container": h.kind, "config": h.conf, "history": h.evs, "gen_seed": seed, "gen_index": idx}
+	if len(h.detail) > 0 {
+		desc["detail"] = h.detail
+	}
 	st.CaseIndex = append(st.CaseIndex, desc)
 	if idx%97 == 0 {
 		st.Sample(map[string]any{"container": h.kind, "config": h.conf, "history": h.evs, "observed": h.obs}, 6)
@@ -1029,7 +1178,11 @@ func emit(cf *vx.CasesFile, st *vx.Stats, h *history, seed uint64, idx int) {
 		if len(f) > 3 {
 			f = f[:3]
 		}
-		st.Fail(map[string]any{"sig": "", "container": h.kind, "config": h.conf, "history": h.evs, "why": f, "gen_seed": seed, "gen_index": idx})
+		fd := map[string]any{"sig": "", "container": h.kind, "config": h.conf, "history": h.evs, "why": f, "gen_seed": seed, "gen_index": idx}
+		if len(h.detail) > 0 {
+			fd["detail"] = h.detail
+		}
+		st.Fail(fd)
 	}
 }
 
@@ -1043,18 +1196,36 @@ func main() {
 	seed := fs.Uint64("seed", 1, "")
 	out := fs.String("out", "cases.v", "")
 	stats := fs.String("stats", "stats.json", "")
+	conc := fs.Int("conc", 160, "number of random forced-interleaving scenarios (after the directed ones)")
 	_ = fs.Parse(os.Args[2:])
 	r := vx.NewRng(*seed)
 	st := vx.NewStats("lockstep random histories on ShrinkingMap / RandomMap (options: default + ratio {0,1/2,1,3/2,2} x count {0,1,2,3,5}), " +
 		"PriorityQueue (ascending, descending, tie-heavy comparator; ds and timed variants), Queue and RingBuffer (capacity 0..5), Stack (simple, threadsafe); " +
 		"keys 0..4, priorities 0..5; distinct = distinct (container, config, history); non-trivial = smap: the map shrank by itself; rmap: a non-last key was deleted and a random pick succeeded; " +
-		"heap: a pop with >= 3 elements and (ds variant) a live handle removed; queue: the write index wrapped twice; ring: >= 2*capacity adds; stack: >= 4 pushes/pops")
+		"heap: a pop with >= 3 elements and (ds variant) a live handle removed; queue: the write index wrapped twice; ring: >= 2*capacity adds; stack: >= 4 pushes/pops; " +
+		"timed keys/bounds = instants time.Now()+p*unit rendered in 7 time.Time representations, ds keys carry an ignored tag, directed (ra,rb) pair histories first; " +
+		"conc (Go-side only, no Coq case): forced interleavings behind a call parked in its callback / the held mutex, non-trivial = gate held and >= 2 calls parked at release")
 	cf := &vx.CasesFile{
 		Header: "From Coq Require Import ZArith List.\nFrom Verif.C12a_Containers Require Import SMap RMap Heap Ring Corr.\nImport ListNotations.\n",
 		Type:   "case",
 		Footer: "Definition M := Eval vm_compute in mismatches cases.\nPrint M.\n",
 	}
-	for i := 0; cf.Len() < *n; i++ {
+	// directed histories first: keys / bounds that denote the same priority in different Go renderings
+	nd := 0
+	for mode := 0; mode < 2; mode++ {
+		for _, sc := range heapDirected(len(timeReprNames)) {
+			nd++
+			emit(cf, st, runHeap(r.Fork(), mode, true, 0, sc, st), *seed, -nd)
+		}
+	}
+	for mode := 0; mode < 3; mode++ {
+		for _, sc := range heapDirected(3) {
+			nd++
+			emit(cf, st, runHeap(r.Fork(), mode, false, 0, sc, st), *seed, -nd)
+		}
+	}
+	st.Count(fmt.Sprintf("directed-histories=%d", nd))
+	for i := 0; cf.Len() < *n+nd; i++ {
 		g := r.Fork()
 		ln := 5 + g.Intn(*maxLen)
 		var h *history
@@ -1064,9 +1235,9 @@ func main() {
 		case 3, 4, 5:
 			h = runRMap(g, smOptsAll[(i/12*3+i%12-3)%len(smOptsAll)], ln, st)
 		case 6, 7:
-			h = runHeap(g, (i/12*2+i%12-6)%3, false, ln, st)
+			h = runHeap(g, (i/12*2+i%12-6)%3, false, ln, nil, st)
 		case 8:
-			h = runHeap(g, (i/12)%2, true, ln, st)
+			h = runHeap(g, (i/12)%2, true, ln, nil, st)
 		case 9:
 			h = runQueue(g, (i/12)%6, ln, st)
 		case 10:
@@ -1077,6 +1248,7 @@ func main() {
 		emit(cf, st, h, *seed, i)
 	}
 	stackConc(r.Fork(), st, 5)
+	concFamily(r.Fork(), st, *conc)
 	if err := cf.Write(*out); err != nil {
 		vx.Die("%v", err)
 	}
